@@ -288,6 +288,11 @@ LAYOUT_PROBES = [
     ('insert: the same value twice is accepted', _grid('    QLabel { QLayout.columnStretch: 5 }\n    QLabel {}\n    QLabel { QLayout.columnStretch: 5 }\n'), ('attr_re', 'columnstretch', r'5(,\d+)?')),
     ('insert: a conflicting value is diagnosed', _grid('    QLabel { QLayout.columnStretch: 5 }\n    QLabel {}\n    QLabel { QLayout.columnStretch: 4 }\n'), ('reject', 'mismatched with the value previously set')),
     ('insert: conflict after an unset lower slot was filled', _grid('    QLabel {}\n    QLabel { QLayout.columnStretch: 5 }\n    QLabel { QLayout.columnStretch: 3 }\n    QLabel { QLayout.columnStretch: 4 }\n'), ('reject', 'mismatched with the value previously set')),
+    ('xml: rowMinimumHeight alone is written', _grid('    QLabel { QLayout.rowMinimumHeight: 9 }\n'), ('attr_re', 'rowminimumheight', r'9')),
+    ('xml: rowStretch alone is written, nothing else', _grid('    QLabel { QLayout.rowStretch: 4 }\n'), ('attrs_exact', ['rowstretch'])),
+    ('xml: columnMinimumWidth alone', _grid('    QLabel { QLayout.columnMinimumWidth: 9 }\n'), ('attrs_exact', ['columnminimumwidth'])),
+    ('xml: columnStretch alone', _grid('    QLabel { QLayout.columnStretch: 9 }\n'), ('attrs_exact', ['columnstretch'])),
+    ('xml: rowMinimumHeight alone, nothing else', _grid('    QLabel { QLayout.rowMinimumHeight: 9 }\n'), ('attrs_exact', ['rowminimumheight'])),
     ('form: cells', 'import qmluic.QtWidgets\nQWidget {\n  QFormLayout {\n    QLabel {}\n    QLabel {}\n    QLabel { QLayout.row: 3; QLayout.column: 1 }\n  }\n}\n', ('cells', [(0, 0), (0, 1), (3, 1)])),
     ('vbox: stretch at position', 'import qmluic.QtWidgets\nQWidget {\n  QVBoxLayout {\n    QLabel {}\n    QLabel { QLayout.rowStretch: 3 }\n  }\n}\n', ('attr_at', 'stretch', 1, '3', 2)),
     ('hbox: stretch at position', 'import qmluic.QtWidgets\nQWidget {\n  QHBoxLayout {\n    QLabel {}\n    QLabel {}\n    QLabel { QLayout.columnStretch: 4 }\n  }\n}\n', ('attr_at', 'stretch', 2, '4', 3)),
@@ -314,6 +319,10 @@ def replay_layout_probes(workdir):
             if not cells:
                 cells = [(int(b), int(a)) for a, b in re.findall(r'<item[^>]*\bcolumn="(\d+)"[^>]*\brow="(\d+)"', r.ui)]
             ok, got = cells == exp[1], cells
+        elif exp[0] == 'attrs_exact':
+            m = re.search(r'<layout class="QGridLayout"([^>]*)>', r.ui)
+            got = sorted(a for a in re.findall(r'(\w+)="', m.group(1)) if a not in ('class', 'name')) if m else None
+            ok = got == sorted(exp[1])
         elif exp[0] in ('attr', 'attr_re'):
             m = re.search(r'\b' + exp[1] + r'="([^"]*)"', r.ui)
             got = m.group(1) if m else None
@@ -925,3 +934,155 @@ def replay_literals(workdir):
     with open(os.path.join(workdir, 'README.txt'), 'w') as f:
         f.write('qmluic generate-ui Lit<i>.qml; failed: %s\n' % failed)
     return bool(failed), {'failed_probes': failed}
+
+
+# ================================================================================================ C12 XML attributes
+def struct_fields(rel_path, struct_name):
+    """field order of a struct, read from its declaration in the current tree (the MIR names fields by index only)"""
+    import os
+    text = open(os.path.join(C.REPO, rel_path)).read()
+    m = re.search(r'struct ' + struct_name + r'\s*\{(.*?)\n\}', text, re.S)
+    if not m:
+        raise M.MirError('struct ' + struct_name + ' not found')
+    return re.findall(r'^\s*(?:pub(?:\([^)]*\))? )?(\w+)\s*:', m.group(1), re.M)
+
+
+def c12_xml_attributes(fns, consts):
+    ob = _ob('c12_mir_layout_xml_attributes', 'uigen::layout::Layout::serialize_to_xml (attribute section)',
+             'all 32 combinations of empty / non-empty per-index arrays (paths of the function up to the first child/property write); calls uninterpreted',
+             'each of columnminimumwidth, columnstretch, rowminimumheight, rowstretch, stretch is written iff ITS OWN array is non-empty, and is formatted from that same array')
+    t0 = time.time()
+    bad = []
+    try:
+        fields = struct_fields('lib/src/uigen/layout.rs', 'LayoutAttributes')
+        layout_fields = struct_fields('lib/src/uigen/layout.rs', 'Layout')
+        ai = layout_fields.index('attributes')
+        cands = [f for n, f in fns.items() if n.endswith('::serialize_to_xml') and '&layout::Layout,' in f.header.replace('_1: ', '')]
+        cands = [f for f in cands if any('"layout"' in l for b in f.blocks.values() for l in b)]
+        if len(cands) != 1:
+            raise M.MirError(f'{len(cands)} candidates for Layout::serialize_to_xml')
+        it = M.Interp(cands[0], consts)
+        it.stop_at = ('serialize_properties_to_xml',)
+        paths = [p for p in it.run(max_paths=200) if p.end == 'stop']
+        if len(paths) != 2 ** len(fields):
+            bad.append(f'{len(paths)} paths through the attribute section, expected {2 ** len(fields)}')
+
+        def field_of(v):
+            """index of the LayoutAttributes field a reference designates"""
+            n = it.name_of(v) or ''
+            m = re.search(r'_1\.\*\.%d\.(\d+)' % ai, n)
+            return int(m.group(1)) if m else None
+        for p in paths:
+            nonempty = {}
+            for c in p.calls:
+                if c.callee.endswith('is_empty'):
+                    k = field_of(c.args[0])
+                    s = z3.Solver()
+                    s.add(*p.pc)
+                    v = it.leaf(c.name + '.int', 'isize')
+                    nonempty[k] = s.check(v != 0) == z3.unsat
+            written = {}
+            for c in p.calls:
+                if c.callee.endswith('push_attribute') and isinstance(c.args[1], M.Tup) and isinstance(c.args[1].items[0], tuple):
+                    name = c.args[1].items[0][1]
+                    if name in ('class', 'name'):
+                        continue
+                    # value <- as_ref(&String <- format_opt_i32_array(deref(&field), default))
+                    v = c.args[1].items[1]
+                    src = None
+                    for _ in range(6):
+                        if isinstance(v, M.Ref):
+                            v = v.target
+                        elif isinstance(v, M.Call) and v.callee.endswith('format_opt_i32_array'):
+                            d = v.args[0]
+                            d = d.args[0] if isinstance(d, M.Call) else d
+                            src = field_of(d)
+                            break
+                        elif isinstance(v, M.Call):
+                            v = v.args[0]
+                        else:
+                            break
+                    written[name] = src
+            for k, fname in enumerate(fields):
+                xml = fname.replace('_', '')
+                if nonempty.get(k) is None:
+                    bad.append(f'no emptiness test of {fname} on a path')
+                    continue
+                if nonempty[k] and xml not in written:
+                    bad.append(f'{xml} is not written although {fname} is non-empty')
+                if not nonempty[k] and xml in written:
+                    bad.append(f'{xml} is written although {fname} is empty')
+                if xml in written and written[xml] != k:
+                    bad.append(f'{xml} is formatted from field #{written[xml]} ({fields[written[xml]] if written[xml] is not None else "?"}) instead of {fname}')
+            for name in written:
+                if name not in [f.replace('_', '') for f in fields]:
+                    bad.append(f'unexpected attribute {name}')
+        ob['detail'] = f'{len(paths)} paths, fields {fields}'
+    except (M.MirError, ValueError) as e:
+        return [_finish(ob, t0, [f'MIR not interpretable: {e}'], unknown=True)]
+    seen, uniq = set(), []
+    for b in bad:
+        if b not in seen:
+            seen.add(b)
+            uniq.append(b)
+    return [_finish(ob, t0, uniq)]
+
+
+# ================================================================================================ C19 palette roles
+QT_COLOR_ROLES = ['window', 'windowText', 'base', 'alternateBase', 'toolTipBase', 'toolTipText', 'placeholderText', 'text', 'button', 'buttonText', 'brightText',
+                  'light', 'midlight', 'dark', 'mid', 'shadow', 'highlight', 'highlightedText', 'link', 'linkVisited']
+
+
+def c19_palette_roles(fns, consts):
+    """colour strings bound to palette roles are read as colours only if the role is declared with a brush type:
+    the hand-written role table (metatype_tweak.rs) is evaluated from the MIR constants"""
+    ob = _ob('c19_mir_palette_roles', 'metatype_tweak::internal_gui_classes (Property::new table of QPaletteColorGroup)', 'the whole table (MIR constants)',
+             "every QPalette::ColorRole (Qt's list, written independently) is declared as a property of type QBrush; no role is declared with another type")
+    t0 = time.time()
+    bad = []
+    try:
+        fn = M.find_fn(fns, r'^internal_gui_classes$')
+        it = M.Interp(fn, consts)
+        ps = [p for p in it.run() if p.end == 'return']
+        if len(ps) != 1:
+            raise M.MirError(f'{len(ps)} paths')
+        decl = {}
+        for c in ps[0].calls:
+            if c.callee.endswith('Property::new') and len(c.args) == 2 and all(isinstance(a, tuple) and a[0] == 'str' for a in c.args):
+                decl.setdefault(c.args[0][1], []).append(c.args[1][1])
+        role = z3.String('role')
+        # as a map role -> set of declared types: queried for every role name
+        for r in QT_COLOR_ROLES:
+            tys = decl.get(r, [])
+            if 'QBrush' not in tys:
+                bad.append(f'palette role {r} is not declared as QBrush (declared: {tys})')
+            other = [t for t in tys if t != 'QBrush']
+            if other:
+                bad.append(f'palette role {r} is also declared as {other}')
+        ob['detail'] = f'{sum(len(v) for v in decl.values())} Property::new rows evaluated; {len(QT_COLOR_ROLES)} roles'
+        ob['bad_roles'] = [r for r in QT_COLOR_ROLES if 'QBrush' not in decl.get(r, []) or [t for t in decl.get(r, []) if t != 'QBrush']]
+    except M.MirError as e:
+        return [_finish(ob, t0, [f'MIR not interpretable: {e}'], unknown=True)]
+    return [_finish(ob, t0, bad)]
+
+
+def replay_palette_role(role, workdir):
+    import os
+    from ..tv import driver as D
+    os.makedirs(workdir, exist_ok=True)
+    text = f'import qmluic.QtWidgets\nQWidget {{ palette.{role}: "#102030" }}\n'
+    r = D.run_cli(C.build_native(), workdir, text, 'Pal')
+    ok = False
+    got = 'rejected: ' + r.stderr.strip()[:200] if r.ui is None else None
+    if r.ui is not None:
+        m = re.search(r'<colorrole role="' + role[0].upper() + role[1:] + r'">\s*<brush[^>]*>\s*<color[^>]*>(.*?)</color>', r.ui, re.S)
+        if m:
+            ch = {k: re.search(rf'<{k}>(\d+)</{k}>', m.group(1)) for k in ('red', 'green', 'blue')}
+            got = [int(ch[k].group(1)) for k in ('red', 'green', 'blue')] if all(ch.values()) else None
+            ok = got == [16, 32, 48]
+        else:
+            got = 'no <colorrole>/<brush>/<color> for the role: ' + ' '.join(r.ui.split())[:300]
+    info = {'document': text, 'expected': [16, 32, 48], 'actual': got}
+    with open(os.path.join(workdir, 'README.txt'), 'w') as f:
+        f.write(f'qmluic generate-ui Pal.qml ; role {role}: expected colour [16,32,48], got {got}\n')
+    return not ok, info
